@@ -121,3 +121,70 @@ def slice_mentions(expr, defs, pred) -> bool:
 
 def method_calls(node, attr: str):
     return [n for n in ast.walk(node) if isinstance(n, ast.Call) and isinstance(n.func, ast.Attribute) and n.func.attr == attr]
+
+
+def linear_in(e, symbols, defs=None, odd=None, _depth=0):
+    """value of an integer expression as a Fraction-linear form {symbol: coefficient, 1: constant} over the given symbol texts (source text of an expression -> symbol name);
+    local names are followed through `defs` (single definitions only).  `//`, `int(x / 2)` and `/` by a constant are exact divisions, with the floor applied to the constant
+    part when a symbol listed in `odd` (known to be odd) makes the dividend's parity known.  None when the expression leaves this vocabulary."""
+    from fractions import Fraction
+    import math
+    if _depth > 8:
+        return None
+    txt = ast.unparse(e)
+    if txt in symbols:
+        return {symbols[txt]: Fraction(1)}
+    if isinstance(e, ast.Constant) and isinstance(e.value, (int, float)) and not isinstance(e.value, bool) and float(e.value) == int(e.value):
+        return {1: Fraction(int(e.value))}
+    if isinstance(e, ast.Name) and defs is not None and len(defs.get(e.id, [])) == 1:
+        return linear_in(defs[e.id][0], symbols, defs, odd, _depth + 1)
+    if isinstance(e, ast.UnaryOp) and isinstance(e.op, ast.USub):
+        v = linear_in(e.operand, symbols, defs, odd, _depth + 1)
+        return None if v is None else {k: -c for k, c in v.items()}
+    if isinstance(e, ast.Call) and isinstance(e.func, ast.Name) and e.func.id in ('int', 'float') and len(e.args) == 1:
+        v = linear_in(e.args[0], symbols, defs, odd, _depth + 1)
+        return _floor_form(v, odd) if e.func.id == 'int' else v
+    if isinstance(e, ast.Call) and ast.unparse(e.func) == 'math.floor' and len(e.args) == 1:
+        return _floor_form(linear_in(e.args[0], symbols, defs, odd, _depth + 1), odd)
+    if isinstance(e, ast.BinOp):
+        l, r = linear_in(e.left, symbols, defs, odd, _depth + 1), linear_in(e.right, symbols, defs, odd, _depth + 1)
+        if l is None or r is None:
+            return None
+        if isinstance(e.op, (ast.Add, ast.Sub)):
+            sg = 1 if isinstance(e.op, ast.Add) else -1
+            out = dict(l)
+            for k, c in r.items():
+                out[k] = out.get(k, Fraction(0)) + sg * c
+            return {k: c for k, c in out.items() if c != 0 or k == 1}
+        const = lambda v: v.get(1, Fraction(0)) if set(v) <= {1} else None
+        if isinstance(e.op, ast.Mult):
+            for a, b in ((l, r), (r, l)):
+                if const(a) is not None:
+                    return {k: c * const(a) for k, c in b.items()}
+            return None
+        if isinstance(e.op, (ast.Div, ast.FloorDiv)) and const(r) not in (None, 0):
+            v = {k: c / const(r) for k, c in l.items()}
+            return _floor_form(v, odd) if isinstance(e.op, ast.FloorDiv) else v
+    return None
+
+
+def _floor_form(v, odd):
+    """floor of a linear form whose symbols are odd integers: a·n + b with n odd is (a·(n − 1) + a + b); the floor acts on the fractional part that is left when every
+    coefficient times an odd number has a known remainder — decided for coefficients that are multiples of 1/2"""
+    from fractions import Fraction
+    import math
+    if v is None:
+        return None
+    syms = [k for k in v if k != 1]
+    if all(c.denominator == 1 for c in v.values()):
+        return v
+    if not syms:
+        return {1: Fraction(math.floor(v.get(1, Fraction(0))))}
+    if odd is None or any(k not in odd for k in syms) or any((2 * c).denominator != 1 for c in v.values()):
+        return None
+    # n = 2t + 1: a·n + b = 2a·t + (a + b) with 2a integral; floor acts on (a + b) only
+    rest = sum((v[k] for k in syms), Fraction(0)) + v.get(1, Fraction(0))
+    fl = Fraction(math.floor(rest))
+    out = {k: v[k] for k in syms}
+    out[1] = v.get(1, Fraction(0)) - (rest - fl)
+    return out
